@@ -627,8 +627,15 @@ class Gen:
                     return
                 itext, imop = ("d%d,%s" % (m, ptxt), ["joinl", ["var", m], ["lit", pc]]) if what == "joinl" else \
                               ("(%s),d%d" % (ptxt, m), ["joinr", ["lit", pc], ["var", m]])
-                self.objs[dm] = None
-                self.objs[d] = None
+                nk = normkey(pc[1])
+                if self.objs[dm] is not None and self.objs[d] is not None and nk is not None and nk in self.objs[dm] and len(self.objs[d]) > 0:
+                    # f overwrites an EXISTING key (of d itself, through this or another name, or of another dictionary): no key
+                    # appears or disappears, so Each must complete and visit every key exactly once
+                    self.objs[dm][nk] = pc[2]
+                    exp = ("visitkeys", list(self.objs[d].keys()))
+                else:
+                    self.objs[dm] = None
+                    self.objs[d] = None
             elif what == "drop":
                 k = self.key(dm, hit=0.6)
                 itext, imop = "(%s)_d%d" % (lit_text(k, litable(k) is False), m), ["drop", ["lit", lit_eval(lit_text(k))], ["var", m]]
@@ -738,7 +745,22 @@ def scripted():
         deffn(g, 10, [(("i", 1), ("i", 2))]); call(g, 0, 10); call(g, 1, 10); join(g, 0, ("i", 1), ("i", 9)); find(g, 1, ("i", 1)); call(g, 2, 10); find(g, 2, ("i", 1)); find(g, 0, ("i", 1)); size(g, 2)
     def s8(g):
         lit(g, 0, [(("i", 1), ("i", 2)), (("i", 3), ("i", 4)), (("i", 5), ("i", 6))]); drop(g, 0, ("i", 3)); join(g, 0, ("i", 3), ("i", 7)); each(g, 0); join(g, 0, ("i", 1), ("i", 8)); each(g, 0); size(g, 0)
-    for s in (s1, s2, s3, s4, s5, s6, s7, s8):
+    def eachdo_over(g, n, m, k, v):
+        d = g.env[n]
+        ptxt = "[%s %s]" % (lit_text(k, False), lit_text(v, False))
+        pc = lit_eval(ptxt)
+        g.objs[g.env[m]][normkey(pc[1])] = pc[2]
+        g.emit("lgdo'd%d   :\"where lgdo also runs  d%d,%s\"" % (n, m, ptxt), ["eachdo", ["var", n], ["joinl", ["var", m], ["lit", pc]]],
+               ("visitkeys", list(g.objs[d].keys())), "eachdo")
+        g.ops[-1]["run"] = "lgdo'd%d" % n
+        g.ops[-1]["inner"] = "d%d,%s" % (m, ptxt)
+
+    # f overwrites an existing key of the dictionary Each is walking, through an alias: Each completes, every key once
+    def s9(g):
+        lit(g, 0, [(("i", 1), ("i", 2)), (("i", 3), ("i", 4)), (("s", "a"), ("i", 6))]); alias(g, 1, 0)
+        eachdo_over(g, 0, 1, ("i", 1), ("i", 9)); size(g, 0); find(g, 1, ("i", 1)); eachdo_over(g, 1, 0, ("s", "a"), ("s", "z")); each(g, 0)
+        eachdo_over(g, 0, 0, ("r", 3.0), ("i", 5)); find(g, 0, ("i", 3)); size(g, 1)
+    for s in (s1, s2, s3, s4, s5, s6, s7, s8, s9):
         build(s)
     return out
 
@@ -821,6 +843,19 @@ def prop_ok(expect, res):
         return res[0] == "val" and res[1][0] == "f"
     if expect[0] == "val":
         return res[0] == "val" and res[1] == expect[1]
+    if expect[0] == "visitkeys":
+        if res[0] != "visits" or len(res) - 1 != len(expect[1]):
+            return False
+        left = list(expect[1])
+        for x in res[1:]:
+            if x[0] != "l" or len(x) != 3:
+                return False
+            vk = normkey(x[1])
+            hit = [j for j, nk in enumerate(left) if vk == nk or (vk is not None and vk[0] == "n" and nk[0] == "n" and float(vk[1]) == float(nk[1]))]
+            if not hit:
+                return False
+            left.pop(hit[0])
+        return True
     if expect[0] == "visits":
         if res[0] != "visits" or len(res) - 1 != len(expect[1]):
             return False
